@@ -105,25 +105,11 @@ Proof.
   apply orb_false_iff in H as [H1 H2]. constructor; auto.
 Qed.
 
-Theorem build_passes_checker_model : forall v src seq off ops num denom reads pret dreads dpret,
-  0 <= v < 256 -> 0 <= src < 4294967296 -> 0 <= seq < 4294967296 -> Forall op_ok ops ->
-  let '(b, rets) := model_build v src seq off ops num denom reads pret dreads dpret in
-  build_check rets b = true.
+Lemma enc_ok_model v src off p num denom reads pret dreads dpret :
+  0 <= v < 256 -> 0 <= src < 4294967296 -> binv v src off p ->
+  enc_ok (model_enc p num denom reads pret dreads dpret) = true.
 Proof.
-  intros v src seq off ops num denom reads pret dreads dpret Hv Hs Hq Fo.
-  unfold model_build.
-  pose proof (build_never_panics ops (new_packet v src seq off)) as [NP1 NP2].
-  destruct (build (new_packet v src seq off) ops) as [r rets] eqn:B. cbn [fst snd] in *.
-  destruct r as [p|]; [|congruence].
-  unfold build_check.
-  destruct (existsb is_panic_ret rets) eqn:EP.
-  { apply existsb_exists in EP as [x [Hin Hx]]. destruct x; try discriminate. contradiction. }
-  destruct (existsb is_err_ret rets) eqn:EE; [reflexivity|].
-  assert (N : Forall (fun x => x = BRNil) rets).
-  { apply existsb_false_forall in EP. apply existsb_false_forall in EE.
-    rewrite Forall_forall in *. intros x Hx. specialize (EP x Hx). specialize (EE x Hx). now destruct x. }
-  destruct (build_inv v src off ops _ _ rets (new_packet_inv v src seq off Hq) Fo B N) as [p1 [E1 I]].
-  injection E1 as <-.
+  intros Hv Hs I. unfold model_enc, enc_ok.
   destruct (roundtrip v src off num denom p Hs I) as [bs [p' [Eb [Er RF]]]].
   destruct (built_bytes v src off num denom p bs Hv I Eb) as [Bok Blen].
   rewrite Eb. replace (zlen bs >? 16384) with false by lia.
@@ -145,4 +131,72 @@ Proof.
   unfold payload_eqb. destruct (data_count (pdat p) =? 0) eqn:DZ.
   - rewrite R6 by lia. reflexivity.
   - rewrite R7 by lia. destruct (pdat p); cbn [pdata_eqb]; try reflexivity; apply zlist_eqb_refl.
+Qed.
+
+Lemma bstep_total p o : exists q e, bstep p o = Ok (q, e).
+Proof.
+  destruct o; cbn [bstep]; eauto. unfold new_data.
+  repeat match goal with |- context [if ?c then _ else _] => destruct c end; eauto.
+  destruct (data_width d) as [[w vals]|]; eauto.
+Qed.
+
+(* the arguments of a history step have their Go types *)
+Definition hop_ok (o : hop) : Prop :=
+  match o with
+  | HOp o => op_ok o
+  | HEncode => True
+  | HFiller s _ => 0 <= s < 4294967296
+  end.
+
+Lemma hist_passes_checker v src off :
+  0 <= v < 256 -> 0 <= src < 4294967296 ->
+  forall h p clean, (clean = true -> binv v src off p) -> Forall hop_ok (map fst h) ->
+  hist_check clean (combine (map fst h) (run_hist p h)) = true.
+Proof.
+  intros Hv Hs. induction h as [|[o x] h IH]; intros p clean I F; [reflexivity|].
+  cbn [map fst] in F. inversion F as [|? ? F1 F2]; subst.
+  destruct o as [o| |s n]; cbn [map fst run_hist].
+  - destruct (bstep_total p o) as [q [e E]]. rewrite E. cbn [combine hist_check].
+    replace (is_panic_ret (if e then BRErr else BRNil)) with false by (destruct e; reflexivity).
+    apply IH; [|assumption]. intros C. apply andb_true_iff in C as [C1 C2].
+    destruct e; [discriminate|]. eapply bstep_inv; eauto.
+  - destruct (oracle_of x) as [[num denom] b]. destruct (probes_of b) as [[[reads pret] dreads] dpret].
+    cbn [combine hist_check]. rewrite (IH p clean I F2), andb_true_r.
+    destruct clean; [|reflexivity]. apply (enc_ok_model v src off); auto.
+  - destruct (oracle_of x) as [[num denom] b]. destruct (probes_of b) as [[[reads pret] dreads] dpret].
+    cbn [combine hist_check]. rewrite (IH p clean I F2), andb_true_r.
+    destruct (clean && negb (n =? 0)) eqn:C; [|reflexivity].
+    apply andb_true_iff in C as [C1 C2]. cbn [hop_ok] in F1.
+    destruct (pretend_binv v src off p s n (I C1) F1 ltac:(lia)) as [q [Eq [Iq _]]].
+    rewrite Eq. apply (enc_ok_model v src off); auto.
+Qed.
+
+Theorem build_passes_checker_model : forall v src seq off h,
+  0 <= v < 256 -> 0 <= src < 4294967296 -> 0 <= seq < 4294967296 -> Forall hop_ok (map fst h) ->
+  build_check (combine (map fst h) (run_hist (new_packet v src seq off) h)) = true.
+Proof.
+  intros v src seq off h Hv Hs Hq F. unfold build_check.
+  apply (hist_passes_checker v src off Hv Hs); [|assumption].
+  intros _. now apply new_packet_inv.
+Qed.
+
+(* a filler packet made from any built packet round-trips: decode (Bytes q) gives q's sequence number,
+   q's (repeated) payload, and the shape, offset and time-stamp counter of the original *)
+Theorem filler_round_trip_model : forall v src seq off ops num denom r rets s n,
+  0 <= src < 4294967296 -> 0 <= seq < 4294967296 -> Forall op_ok ops ->
+  build (new_packet v src seq off) ops = (r, rets) -> Forall (fun x => x = BRNil) rets ->
+  0 <= s < 4294967296 -> n <> 0 ->
+  exists p q bs q', r = Ok p /\ make_pretend p s n = Ok q /\ bytes_of num denom q = Ok bs /\
+    read_packet bs = (DOk q', zlen bs) /\
+    version q' = v /\ sourceID q' = src /\ sequenceNumber q' = s /\ offset q' = wrap32 off /\
+    shape q' = shape p /\
+    (data_count (pdat q) = 0 -> data_count (pdat q') = 0) /\
+    (data_count (pdat q) <> 0 -> pdat q' = pdat q) /\
+    timestamp_T q' = timestamp_T p.
+Proof.
+  intros v src seq off ops num denom r rets s n Hs Hq Fo B N Hsn Hn.
+  destruct (build_inv v src off ops _ r rets (new_packet_inv v src seq off Hq) Fo B N) as [p [-> I]].
+  destruct (pretend_binv v src off p s n I Hsn Hn) as [q [Eq [Iq [Q1 [Q2 [Q3 _]]]]]].
+  destruct (roundtrip v src off num denom q Hs Iq) as [bs [q' [E1 [E2 [R1 [R2 [R3 [R4 [R5 [R6 [R7 R8]]]]]]]]]]].
+  exists p, q, bs, q'. repeat split; try assumption; try congruence.
 Qed.
